@@ -11,6 +11,7 @@ mod kseries;
 mod kcurve;
 mod kframe;
 mod kxform;
+mod kalign;
 
 pub fn f(v: &Value) -> f64 {
     match v {
@@ -52,6 +53,8 @@ fn main() {
     } else if let Some(v) = kseries::run(&kernel, &a) {
         v
     } else if let Some(v) = kcurve::run(&kernel, &a) {
+        v
+    } else if let Some(v) = kalign::run(&kernel, &a) {
         v
     } else if let Some(v) = kxform::run(&kernel, &a) {
         v
